@@ -215,3 +215,16 @@ def val(x):
     if isinstance(x, SOpt):
         return x.val
     return x
+
+
+class Instance:
+    """a ground instance of a universally quantified hypothesis (used as a proof hint: needs no proof of its own as long as
+    the quantified formula really is among the hypotheses - the engine checks that)"""
+
+    def __init__(self, forall, *terms):
+        self.forall = forall
+        self.formula = z3.substitute_vars(forall.body(), *reversed([_t(t) for t in terms]))
+
+
+def instance(forall, *terms):
+    return Instance(forall, *terms)
